@@ -83,6 +83,9 @@ pub struct Script {
     /// transient fault: when > len, the fault at `len` is produced once and the script then
     /// continues up to resume_len
     pub resume_len: usize,
+    /// endless stream: when the script is exhausted it starts over (for 'line without end' cases)
+    pub endless: bool,
+    pub total_served: usize,
 }
 
 impl std::fmt::Debug for Script {
@@ -108,6 +111,8 @@ impl Script {
             out_overflow: false,
             flushes: 0,
             resume_len: 0,
+            endless: false,
+            total_served: 0,
         }
     }
 
@@ -150,6 +155,9 @@ impl Read for Script {
             self.out_at_first_read = self.out_len;
         }
         self.out_at_last_read = self.out_len;
+        if self.pos >= self.len && self.endless {
+            self.pos = 0;
+        }
         if self.pos >= self.len {
             self.end_hits += 1;
             if self.resume_len > self.len {
@@ -170,6 +178,7 @@ impl Read for Script {
         }
         buf[..n].copy_from_slice(&self.data[self.pos..self.pos + n]);
         self.pos += n;
+        self.total_served += n;
         Ok(n)
     }
 }
